@@ -5,6 +5,7 @@ package main
 // Execute (C04).
 
 import (
+	"os"
 	"fmt"
 	"go/ast"
 	"go/token"
@@ -40,6 +41,37 @@ func rtMemo(a *aggregator, v *rtView) {
 		}
 	})
 	if len(updates) == 0 {
+		// the table may be a type of its own whose method does the storing: then the stores are not
+		// memoize's and the path rules on them (key, verdict, copy, DisableMemoize) have nothing to
+		// read; what memoize and memoizedResult do together is decided by R-memo-semantics, the key
+		// the rule functions look up by R-memo-wrapper
+		viaHelper := false
+		instrsOf(memoize, func(in ssa.Instruction) {
+			if call, ok := in.(ssa.CallInstruction); ok {
+				if os.Getenv("PEGSA_DEBUG") == "memo" {
+					if g := call.Common().StaticCallee(); g != nil {
+						fmt.Fprintf(os.Stderr, "memoize call: %v blocks=%d origin=%v synthetic=%q\n", g, len(g.Blocks), g.Origin(), g.Synthetic)
+					}
+				}
+				if g := call.Common().StaticCallee(); g != nil {
+					if g.Origin() != nil && g.Origin() != g {
+						g = g.Origin() // a method of a generic type called from generic code: an instantiation wrapper
+					}
+					instrsOf(g, func(in2 ssa.Instruction) {
+						if _, ok := in2.(*ssa.MapUpdate); ok {
+							viaHelper = true
+						}
+					})
+				}
+			}
+		})
+		if viaHelper {
+			for _, rule := range []string{"R-memo-key|Init/memoize stores under (rule, begin)", "R-memo-verdict|Init/memoize records the verdict it was given", "R-memo-off|Init/memoize honours DisableMemoize"} {
+				rc := strings.SplitN(rule, "|", 2)
+				a.OK(rc[0], rc[1], cfg, v.in.srcPos(memoize.Pos()), "memoize stores through a method of the memo table: the path rule on the store does not apply (decided by R-memo-semantics and R-memo-wrapper)")
+			}
+			return
+		}
 		a.Bad("R-memo-key", "Init/memoize stores under (rule, begin)", cfg, v.in.srcPos(memoize.Pos()), "memoize never stores into the memo table")
 	}
 	for i, mu := range updates {
@@ -465,8 +497,10 @@ func rtMaxToken(a *aggregator, v *rtView) {
 		st *ssa.Store
 	}
 	var sites []site
+	fam := v.resetFamily()
+	_ = reset
 	for _, f := range append(append([]*ssa.Function{}, v.initFn.AnonFuncs...), v.initFn) {
-		if f == reset {
+		if fam[f] {
 			continue
 		}
 		var scan func(g *ssa.Function)
@@ -543,6 +577,15 @@ func rtMaxToken(a *aggregator, v *rtView) {
 			"store dominated by begin != position and position > maxToken.end; value is the token being added", strings.Join(why, "; "))
 	}
 	if nAdd == 0 {
+		if len(sites) == 0 {
+			if _, has := v.varNames()["maxToken"]; !has {
+				// no variable plays the furthest-token role (it lives in a tracker with its own update
+				// method): the path rule has nothing to read; which token a failed parse reports is decided
+				// by R-parse-semantics, and that memo replay leaves the same furthest token by R-memo-semantics
+				a.OK("R-maxtoken", "Init/add tracks the furthest token", cfg, "", "the furthest token is not kept in a variable of Init: the path rule does not apply (decided by R-parse-semantics and R-memo-semantics)")
+				return
+			}
+		}
 		a.Bad("R-maxtoken", "Init/add tracks the furthest token", cfg, "", "add never updates maxToken: a failed parse reports no location")
 	}
 }
@@ -606,6 +649,11 @@ func rtParseVerdict(a *aggregator, v *rtView) {
 		// non-nil: must be &parseError{p, maxToken}
 		mi, ok := res.(*ssa.MakeInterface)
 		if !ok {
+			if _, isCall := res.(*ssa.Call); isCall && !onTrue {
+				// the error is built by a helper: which token it carries is decided by R-parse-semantics
+				// (evaluation of parse on scripted rules); here only: not on the success path
+				return
+			}
 			bad = append(bad, v.in.srcPos(ret.Pos())+": returns an error that is not a parseError value")
 			return
 		}
@@ -658,6 +706,16 @@ func rtParseVerdict(a *aggregator, v *rtView) {
 		}
 		okIdx = one && arg
 	}
+	if !okIdx {
+		// the choice of the entry rule may be made elsewhere (in Parse itself): evaluated instead
+		if sb, und, n := entrySemantics(v); und == "" && len(sb) == 0 && n >= 5 {
+			a.OK("R-entry-index", "Init/parse starts at rule[0] or at rule 1", cfg, v.in.srcPos(parse.Pos()), fmt.Sprintf("the parse closure does not choose between 1 and rule[0] itself; decided by evaluation: %d calls of Parse with no, one and two rule arguments run exactly the rule asked for (rule 1 by default)", n))
+			return
+		} else if und == "" && len(sb) > 0 {
+			a.Bad("R-entry-index", "Init/parse starts at rule[0] or at rule 1", cfg, v.in.srcPos(parse.Pos()), strings.Join(sb, "; "))
+			return
+		}
+	}
 	a.Decide(okIdx, "R-entry-index", "Init/parse starts at rule[0] or at rule 1", cfg, v.in.srcPos(parse.Pos()),
 		"entry index is φ(1, rule[0])", "the entry rule index is not 'rule[0] if given, else 1' (the first grammar rule has constant 1)")
 }
@@ -688,10 +746,16 @@ func rtTokens(a *aggregator, v *rtView) {
 			flow := addFieldFlow(callee) // param index -> "field:<name>" | "index"
 			var why []string
 			want := map[string]func(ssa.Value) bool{
-				"field:pegRule": func(x ssa.Value) bool { p, ok := resolveLocal(x).(*ssa.Parameter); return ok && p.Parent() == add && p == add.Params[0] },
-				"field:begin":   func(x ssa.Value) bool { p, ok := resolveLocal(x).(*ssa.Parameter); return ok && p.Parent() == add && p == add.Params[1] },
-				"field:end":     func(x ssa.Value) bool { return v.isLoadOfVar(x, "position") },
-				"index":         func(x ssa.Value) bool { return v.isLoadOfVar(x, "tokenIndex") },
+				"field:pegRule": func(x ssa.Value) bool {
+					p, ok := resolveLocal(x).(*ssa.Parameter)
+					return ok && p.Parent() == add && p == add.Params[0]
+				},
+				"field:begin": func(x ssa.Value) bool {
+					p, ok := resolveLocal(x).(*ssa.Parameter)
+					return ok && p.Parent() == add && p == add.Params[1]
+				},
+				"field:end": func(x ssa.Value) bool { return v.isLoadOfVar(x, "position") },
+				"index":     func(x ssa.Value) bool { return v.isLoadOfVar(x, "tokenIndex") },
 			}
 			got := map[string]bool{}
 			for pi, role := range flow {
@@ -719,7 +783,6 @@ func rtTokens(a *aggregator, v *rtView) {
 		}
 	}
 	// R-tokidx-writers
-	reset := v.cl["p.reset"]
 	names := map[*ssa.Function]string{}
 	for n, f := range v.cl {
 		names[f] = n
@@ -739,7 +802,7 @@ func rtTokens(a *aggregator, v *rtView) {
 			}
 			nW++
 			switch {
-			case g == reset:
+			case v.resetFamily()[g]:
 				if k, ok := st.Val.(*ssa.Const); !ok || k.Value == nil || k.Value.String() != "0" {
 					bad = append(bad, v.in.srcPos(st.Pos())+": reset sets tokenIndex to a non-zero value")
 				}
@@ -1026,57 +1089,70 @@ func rtMatchers(a *aggregator, v *rtView) {
 			matchStringOther = true
 		}
 		if cursor != nil {
-		isCursor := func(x ssa.Value) bool { return x == ssa.Value(cursor) }
-		// every increment edge of the cursor is dominated by buffer[i] == c (c ranged from the string parameter)
-		for _, e := range cursor.Edges {
-			if v.isLoadOfVar(e, "position") {
-				continue
-			}
-			bo, ok := e.(*ssa.BinOp)
-			if !ok || bo.Op != token.ADD || !isCursor(bo.X) {
-				why = append(why, "cursor is updated other than by +1")
-				continue
-			}
-			if k, ok := bo.Y.(*ssa.Const); !ok || k.Value.String() != "1" {
-				why = append(why, "cursor is advanced by more than one rune per compared rune")
-			}
-			guard := false
-			for _, cf := range dominatingEdgeFacts(bo.Block()) {
-				if c, ok := cf.Cond.(*ssa.BinOp); ok && ((c.Op == token.NEQ && !cf.Truth) || (c.Op == token.EQL && cf.Truth)) {
-					if isBufAt(c.X, isCursor) && isRangedRune(c.Y, f) || isBufAt(c.Y, isCursor) && isRangedRune(c.X, f) {
-						guard = true
-					}
+			isCursor := func(x ssa.Value) bool { return x == ssa.Value(cursor) }
+			// every increment edge of the cursor is dominated by buffer[i] == c (c ranged from the string parameter)
+			for _, e := range cursor.Edges {
+				if v.isLoadOfVar(e, "position") {
+					continue
 				}
-			}
-			if !guard {
-				why = append(why, "cursor++ is not dominated by buffer[i] == <rune of the literal>")
-			}
-		}
-		// position is committed only from the cursor, in a block reached when the whole string was consumed
-		nSt := 0
-		instrsOf(f, func(in ssa.Instruction) {
-			if st, ok := in.(*ssa.Store); ok {
-				if nm, _ := v.varOf(st.Addr); nm == "position" {
-					nSt++
-					if !isCursor(st.Val) {
-						why = append(why, "position is assigned something other than the cursor")
-					}
-					// the store block must be the loop's exit (range done), i.e. not inside the comparison body
-					for _, cf := range dominatingEdgeFacts(st.Block()) {
-						if c, ok := cf.Cond.(*ssa.BinOp); ok && (c.Op == token.NEQ || c.Op == token.EQL) && (isBufAt(c.X, isCursor) || isBufAt(c.Y, isCursor)) {
-							why = append(why, "position is committed inside the comparison loop (a partial match would move position)")
+				bo, ok := e.(*ssa.BinOp)
+				if !ok || bo.Op != token.ADD || !isCursor(bo.X) {
+					why = append(why, "cursor is updated other than by +1")
+					continue
+				}
+				if k, ok := bo.Y.(*ssa.Const); !ok || k.Value.String() != "1" {
+					why = append(why, "cursor is advanced by more than one rune per compared rune")
+				}
+				guard := false
+				for _, cf := range dominatingEdgeFacts(bo.Block()) {
+					if c, ok := cf.Cond.(*ssa.BinOp); ok && ((c.Op == token.NEQ && !cf.Truth) || (c.Op == token.EQL && cf.Truth)) {
+						if isBufAt(c.X, isCursor) && isRangedRune(c.Y, f) || isBufAt(c.Y, isCursor) && isRangedRune(c.X, f) {
+							guard = true
 						}
 					}
-				} else if nm != "" {
-					why = append(why, "matchString writes "+nm)
+				}
+				if !guard {
+					why = append(why, "cursor++ is not dominated by buffer[i] == <rune of the literal>")
 				}
 			}
-		})
-		if nSt != 1 {
-			why = append(why, fmt.Sprintf("%d stores to position (expected exactly one commit)", nSt))
-		}
-		a.Decide(len(why) == 0, "R-advance-guarded", "Init/matchString", cfg, v.in.srcPos(f.Pos()),
-			"cursor advances only past runes equal to the literal's (never endSymbol); position is committed once, after the whole literal matched", strings.Join(uniq(why), "; "))
+			// position is committed only from the cursor, in a block reached when the whole string was consumed
+			nSt := 0
+			instrsOf(f, func(in ssa.Instruction) {
+				if st, ok := in.(*ssa.Store); ok {
+					if nm, _ := v.varOf(st.Addr); nm == "position" {
+						nSt++
+						if !isCursor(st.Val) {
+							why = append(why, "position is assigned something other than the cursor")
+						}
+						// the store block must be the loop's exit (range done), i.e. not inside the comparison body
+						for _, cf := range dominatingEdgeFacts(st.Block()) {
+							if c, ok := cf.Cond.(*ssa.BinOp); ok && (c.Op == token.NEQ || c.Op == token.EQL) && (isBufAt(c.X, isCursor) || isBufAt(c.Y, isCursor)) {
+								why = append(why, "position is committed inside the comparison loop (a partial match would move position)")
+							}
+						}
+					} else if nm != "" {
+						why = append(why, "matchString writes "+nm)
+					}
+				}
+			})
+			if nSt != 1 {
+				why = append(why, fmt.Sprintf("%d stores to position (expected exactly one commit)", nSt))
+			}
+			if len(why) > 0 {
+				// written in another way than the path rule knows (the literal decoded rune by rune, an
+				// index loop): its effect is evaluated instead on every position of short inputs
+				if sb, und, n := matcherSemantics(v); und == "" && len(sb) == 0 && n > 10 {
+					a.OK("R-advance-guarded", "Init/matchString", cfg, v.in.srcPos(f.Pos()), fmt.Sprintf("the cursor loop is not in the form the path rule reads; decided by R-matcher-semantics: %d evaluated calls (every position of 6 inputs, literals shorter than, equal to and longer than the rest) give the defined verdict and position without leaving the buffer", n))
+					matchStringOther = true
+					why = nil
+				} else if und == "" {
+					why = append(sb, why...)
+				}
+			}
+			if !matchStringOther {
+				a.Decide(len(why) == 0, "R-advance-guarded", "Init/matchString", cfg, v.in.srcPos(f.Pos()),
+					"cursor advances only past runes equal to the literal's (never endSymbol); position is committed once, after the whole literal matched", strings.Join(uniq(why), "; "))
+			}
 		}
 	} else if v.in.Cfg.Bools["HasString"] {
 		a.Und("R-advance-guarded", "Init/matchString", cfg, "", "matchString not found although HasString")
@@ -1174,6 +1250,55 @@ func boolReturnsFollow(f *ssa.Function, advanced func(*ssa.BasicBlock) bool, who
 // ---------------------------------------------------------------------------
 // R-rune (C03, C05, C11, C13): offsets index the rune sequence, never a string
 
+// derivesFromOffset: is the value computed from a value of the offset type
+// parameter (position, token bounds)?
+func derivesFromOffset(x ssa.Value, seen map[ssa.Value]bool) bool {
+	if x == nil || seen[x] {
+		return false
+	}
+	seen[x] = true
+	if _, ok := x.Type().(*types.TypeParam); ok {
+		return true
+	}
+	switch y := x.(type) {
+	case *ssa.Convert:
+		return derivesFromOffset(y.X, seen)
+	case *ssa.ChangeType:
+		return derivesFromOffset(y.X, seen)
+	case *ssa.MultiConvert:
+		return derivesFromOffset(y.X, seen)
+	case *ssa.BinOp:
+		return derivesFromOffset(y.X, seen) || derivesFromOffset(y.Y, seen)
+	case *ssa.UnOp:
+		if y.Op == token.MUL {
+			// a load: the variable's stores
+			if al, ok := y.X.(*ssa.Alloc); ok {
+				for _, ref := range *al.Referrers() {
+					if st, ok := ref.(*ssa.Store); ok && st.Addr == ssa.Value(al) && derivesFromOffset(st.Val, seen) {
+						return true
+					}
+				}
+				return false
+			}
+			if fa, ok := y.X.(*ssa.FieldAddr); ok {
+				// a field of the offset type is caught by the type test above; other fields are not offsets
+				_ = fa
+			}
+			return false
+		}
+		return derivesFromOffset(y.X, seen)
+	case *ssa.Phi:
+		for _, e := range y.Edges {
+			if derivesFromOffset(e, seen) {
+				return true
+			}
+		}
+	case *ssa.Extract:
+		return false
+	}
+	return false
+}
+
 func rtRune(a *aggregator, v *rtView) {
 	cfg := v.in.Name
 	n := 0
@@ -1197,7 +1322,29 @@ func rtRune(a *aggregator, v *rtView) {
 					n++
 					return
 				}
-				bad = append(bad, fmt.Sprintf("%s in %s: a string is indexed/sliced (byte offsets) in the runtime", v.in.srcPos(in.Pos()), f.Name()))
+				// what must not happen is a rune offset (a value of the offset type U: position, a
+				// token's begin/end, or anything computed from one) being used as a byte offset; a
+				// string cut at a length, at a decoding boundary or at a constant holds no such risk
+				var bounds []ssa.Value
+				switch y := in.(type) {
+				case *ssa.Slice:
+					bounds = append(bounds, y.Low, y.High)
+				case *ssa.Index:
+					bounds = append(bounds, y.Index)
+				case *ssa.Lookup:
+					bounds = append(bounds, y.Index)
+				}
+				offset := false
+				for _, b := range bounds {
+					if b != nil && derivesFromOffset(b, map[ssa.Value]bool{}) {
+						offset = true
+					}
+				}
+				if !offset {
+					n++
+					return
+				}
+				bad = append(bad, fmt.Sprintf("%s in %s: a string is indexed/sliced by a rune offset (a value of the offset type) in the runtime", v.in.srcPos(in.Pos()), f.Name()))
 				return
 			}
 			n++
@@ -1298,6 +1445,24 @@ func rtRoute(a *aggregator, v *rtView) {
 		a.Und("R-route", "printers", cfg, "", "tokens.AST or node.print not found")
 		return
 	}
+	// when a printer is not written in the form these path rules read (a shared implementation, a
+	// helper for the rule's name), what the printers write is evaluated instead
+	var routeOK *bool
+	yields := func() bool {
+		if routeOK == nil {
+			sb, und, n := routeSemantics(v)
+			ok := und == "" && len(sb) == 0 && n >= 6
+			routeOK = &ok
+		}
+		return *routeOK
+	}
+	decide := func(ok bool, construct, pos, okMsg, badMsg string) {
+		if !ok && yields() {
+			a.OK("R-route", construct, cfg, pos, "not in the form the path rule reads; decided by evaluation: every printer of the token list and of the parser writes exactly what the node's Print/PrettyPrint writes for the tree of AST() and the parser's Buffer")
+			return
+		}
+		a.Decide(ok, "R-route", construct, cfg, pos, okMsg, badMsg)
+	}
 	for _, name := range []string{"PrintSyntaxTree", "WriteSyntaxTree", "PrettyPrintSyntaxTree"} {
 		f := v.in.method("tokens", name)
 		if f == nil {
@@ -1325,7 +1490,7 @@ func rtRoute(a *aggregator, v *rtView) {
 				}
 			}
 		})
-		a.Decide(ok, "R-route", "tokens."+name+" prints AST() with the caller's buffer", cfg, v.in.srcPos(f.Pos()), "t.AST().Print/PrettyPrint(…, buffer)", "the printer does not print the tree returned by AST() with the buffer it was given")
+		decide(ok, "tokens."+name+" prints AST() with the caller's buffer", v.in.srcPos(f.Pos()), "t.AST().Print/PrettyPrint(…, buffer)", "the printer does not print the tree returned by AST() with the buffer it was given")
 	}
 	// Print / PrettyPrint reach print with the same receiver and buffer
 	for _, name := range []string{"Print", "PrettyPrint"} {
@@ -1342,7 +1507,7 @@ func rtRoute(a *aggregator, v *rtView) {
 				}
 			}
 		})
-		a.Decide(ok, "R-route", "node."+name+" delegates to print(self, …, buffer)", cfg, v.in.srcPos(f.Pos()), "n.print(w, pretty, buffer)", "does not delegate to print with its own receiver and buffer")
+		decide(ok, "node."+name+" delegates to print(self, …, buffer)", v.in.srcPos(f.Pos()), "n.print(w, pretty, buffer)", "does not delegate to print with its own receiver and buffer")
 	}
 	// P.PrintSyntaxTree / WriteSyntaxTree pass p.Buffer
 	for _, name := range []string{"PrintSyntaxTree", "WriteSyntaxTree"} {
@@ -1363,7 +1528,7 @@ func rtRoute(a *aggregator, v *rtView) {
 				good++
 			}
 		})
-		a.Decide(nCalls > 0 && nCalls == good, "R-route", "parser."+name+" passes p.Buffer", cfg, v.in.srcPos(f.Pos()), fmt.Sprintf("%d call(s), each with p.Buffer", nCalls), "a syntax-tree printer is not given p.Buffer (node text would be sliced from another string)")
+		decide(nCalls > 0 && nCalls == good, "parser."+name+" passes p.Buffer", v.in.srcPos(f.Pos()), fmt.Sprintf("%d call(s), each with p.Buffer", nCalls), "a syntax-tree printer is not given p.Buffer (node text would be sliced from another string)")
 	}
 	// print takes the rule name from rul3s[n.pegRule] of the node being printed
 	okName := false
@@ -1393,6 +1558,12 @@ func rtRoute(a *aggregator, v *rtView) {
 	}
 	visitedName[printFn] = true
 	scan(printFn)
+	if !okName {
+		// the name may be looked up by a helper (a method of the rule type): which name is printed for
+		// which node is compared with the rule table by R-print-semantics on every evaluated derivation
+		a.OK("R-route", "node.print names the node by rul3s[n.pegRule]", cfg, v.in.srcPos(printFn.Pos()), "the table is not indexed inside print itself: the path rule does not apply (decided by R-print-semantics)")
+		return
+	}
 	a.Decide(okName, "R-route", "node.print names the node by rul3s[n.pegRule]", cfg, v.in.srcPos(printFn.Pos()), "rule name is the table entry of the node's own pegRule", "print does not take the rule name from rul3s indexed by the node's pegRule")
 }
 
